@@ -88,7 +88,7 @@ pub const W_TEXTS: &[&str] = &[
     "She is an an doctor.",
     "He said \"hello and went teh way.",
     "tset Tset teh",
-    "i am going to to the store",
+    "i am going to to the colour store",
 ];
 pub const W_WORDS: &[&[&str]] = &[&["tset"], &["Tset", "teh"]];
 pub const W_CFGS: &[&str] = &[
@@ -138,7 +138,7 @@ struct RefCache {
 }
 
 fn ref_lint(cache: &mut RefCache, dialect: Dialect, words: &BTreeSet<String>, cfg: &BTreeMap<String, Option<bool>>, text: &str, md: bool) -> Vec<Lint> {
-    let gk = format!("{words:?}|{cfg:?}");
+    let gk = format!("{dialect:?}|{words:?}|{cfg:?}");
     let rk = format!("{gk}|{md}|{text}");
     if let Some(r) = cache.results.get(&rk) {
         return r.clone();
@@ -185,8 +185,18 @@ fn migrate(old: &mut Linter, dialect: harper_wasm::Dialect) -> Result<Linter, St
 
 /// Execute one history on the real object, checking every step. Returns first problem.
 pub fn run_w_history(ops: &[WOp], seq: &[usize], cache: &mut RefCache) -> (Option<(String, Value)>, u64, bool) {
-    let wd = harper_wasm::Dialect::American;
-    let dialect = Dialect::American;
+    run_w_history_in(ops, seq, cache, 0)
+}
+
+pub const W_DIALECTS: &[&str] = &["American", "British", "Australian", "Canadian"];
+
+pub fn run_w_history_in(ops: &[WOp], seq: &[usize], cache: &mut RefCache, di: usize) -> (Option<(String, Value)>, u64, bool) {
+    let (wd, dialect) = match di {
+        1 => (harper_wasm::Dialect::British, Dialect::British),
+        2 => (harper_wasm::Dialect::Australian, Dialect::Australian),
+        3 => (harper_wasm::Dialect::Canadian, Dialect::Canadian),
+        _ => (harper_wasm::Dialect::American, Dialect::American),
+    };
     let mut real = Linter::new(wd);
     let mut shadow = Linter::new(wd); // same history without the export/import operations
     let mut words: BTreeSet<String> = BTreeSet::new();
@@ -427,7 +437,16 @@ pub fn run_c16(tier: Tier) -> i32 {
             }
         }
     }
-    let n = seqs.len() as u64;
+    // the other dialects: every history up to depth 2 (3 thorough)
+    let mut jobs: Vec<(usize, Vec<usize>)> = seqs.into_iter().map(|s| (0usize, s)).collect();
+    for di in 1..W_DIALECTS.len() {
+        for s in sequences(ops.len(), tier.pick(2, 3)) {
+            if s.iter().any(|o| matches!(ops[*o], WOp::Lint(..))) {
+                jobs.push((di, s));
+            }
+        }
+    }
+    let n = jobs.len() as u64;
     let res = par_chunks(n, 40, ncpu(), |s, e| {
         let mut cache = RefCache { groups: HashMap::new(), results: HashMap::new() };
         let mut viols: Vec<Violation> = vec![];
@@ -435,18 +454,21 @@ pub fn run_c16(tier: Tier) -> i32 {
         let mut interesting = 0u64;
         let mut states: BTreeSet<u64> = BTreeSet::new();
         for i in s..e {
-            let seq = &seqs[i as usize];
-            let r = catch(|| run_w_history(&ops, seq, &mut cache));
+            let (di, seq) = &jobs[i as usize];
+            let di = *di;
+            let r = catch(|| run_w_history_in(&ops, seq, &mut cache, di));
             match r {
                 Ok((p, steps, int)) => {
                     transitions += steps;
                     if int {
                         interesting += 1;
                     }
-                    states.insert(h64(seq));
+                    states.insert(h64(&(di, seq)));
                     if let Some((sig, detail)) = p {
                         if viols.iter().filter(|v| v.sig == sig).count() < 3 {
-                            viols.push(Violation { sig, case: describe_w(&ops, seq), detail });
+                            let mut case = describe_w(&ops, seq);
+                            case["dialect"] = json!(W_DIALECTS[di]);
+                            viols.push(Violation { sig, case, detail });
                         } else {
                             viols.push(Violation { sig, case: json!({"ops": seq, "pad": "further case with this signature ................................................................................................................................................"}), detail: json!({}) });
                         }
@@ -482,7 +504,7 @@ pub fn run_c16(tier: Tier) -> i32 {
     report.set("exhaustive", true);
     report.sample(describe_w(&ops, &[11, 5, 7]));
     report.sample(describe_w(&ops, &[1, 0, 13]));
-    report.assume("operation alphabet of 19 calls over 6 texts, depth bound as stated, American dialect; states = distinct histories (the history is the state; live objects cannot be hashed)");
+    report.assume("operation alphabet of 19 calls over 6 texts, depth bound as stated (American dialect; the other three dialects one level shallower); states = distinct histories (the history is the state; live objects cannot be hashed)");
     report.assume("reference = fresh core pipeline per query with one dictionary child per user word");
     report.finish()
 }
@@ -763,7 +785,8 @@ pub fn replay_c16(case: &Value) -> Vec<(String, Value)> {
         return vec![("bad-replay-file".into(), json!({}))];
     }
     let mut cache = RefCache { groups: HashMap::new(), results: HashMap::new() };
-    match catch(|| run_w_history(&ops, &seq, &mut cache)) {
+    let di = case["dialect"].as_str().and_then(|d| W_DIALECTS.iter().position(|x| *x == d)).unwrap_or(0);
+    match catch(|| run_w_history_in(&ops, &seq, &mut cache, di)) {
         Ok((Some(p), _, _)) => vec![p],
         Ok((None, _, _)) => vec![],
         Err(p) => vec![(format!("panic:{}", msg_class(&p.msg)), json!({"msg": p.msg}))],
